@@ -1,7 +1,7 @@
 SPECIFICATION Spec
 CONSTANTS
   Objects = {"o1","o2"}
-  Contents = {"shallow","nested","deeper","badscan","badrule","badvalue","usesT","typeT","orset","rich","typeU","blank","comment","typeC","rootRef","typeObj"}
+  Contents = {"shallow","nested","deeper","badscan","badrule","badvalue","usesT","typeT","orset","rich","typeU","blank","comment","typeC","rootRef","typeObj","usesRule"}
   Ops = {"Check","Example","GetAST","Len","Used","OpenAPI"}
   Registers = TRUE
   Sharing = FALSE
